@@ -72,6 +72,17 @@ def rule_lock_read(ctx, facts, prefix="C02-R1"):
         else:
             ctx.bad(prefix, "odd-return", "unexpected return shape %s" % rv_str(rv), r.where(bb))
     ctx.check(somes == 1, prefix, "some-count", "exactly one `Some` return in the lock reader (%d)" % somes, r.where())
+    # "no usable lock" (absent, unparsable) and "the lock could not be read" are different things: after an I/O
+    # error on an existing lock the scan fallback computes max+1 and re-issues the IDs of deleted statements
+    for c in r.calls_to(r"^std::fs::read_to_string$|^std::fs::read$|^std::fs::File::open$"):
+        if not edit.has_const_str(prov, c.args[0], edit.LOCK_CONST):
+            continue
+        for (sb, err_arm, ok_arm) in edit.examining_switches(r, prov, c):
+            rs = cfg.return_shapes(r, err_arm)
+            swallowed = bool(rs) and all(sh is not None and sh[0] == 0 for (_b, sh) in rs) and r.local_ty(0).startswith("std::option::Option<")
+            ctx.check(not swallowed, prefix, "read-error-as-absent|%s" % r.id,
+                      "an I/O error while reading an existing lock is distinguished from \"no lock\" (found: the Err arm of `%s` returns None, the run falls back to scanning)" % c.name.split("::")[-1],
+                      r.where(sb))
 
 
 def _loads_field_chain(body, op, field, depth=0):
